@@ -6,7 +6,7 @@ import warnings
 from copy import deepcopy
 from dataclasses import dataclass, field
 from functools import partial
-from threading import Lock
+from threading import Lock, get_ident
 from types import MethodType
 from typing import Any, Callable, Dict, Generic, List, Optional, Tuple, Union
 
@@ -45,6 +45,17 @@ results: StrictDict[Identifier, Any] = StrictDict()
 # to avoid name conflicts when imbricating DAGs within each other
 DAG_PREFIX: List[str] = []
 exec_nodes_lock = Lock()
+# identity of the thread that holds exec_nodes_lock, i.e. the thread that is describing a DAG
+exec_nodes_lock_owner: Optional[int] = None
+
+
+def in_dag_description() -> bool:
+    """Whether the calling thread is currently describing a DAG.
+
+    exec_nodes_lock.locked() can't be used for this: it is True in every thread while any thread describes a DAG.
+    """
+    return exec_nodes_lock_owner == get_ident()
+
 
 # multiple ways of identifying an XN
 Alias = Union[Tag, Identifier, "ExecNode"]
@@ -378,7 +389,7 @@ class LazyExecNode(ExecNode, Generic[P, RVXN]):
                 2. setup ExecNode depends on normal ExecNode
         """
         # 0.1 LazyExecNodes calls outside outside DAG dependency calculation is not recommended
-        if not exec_nodes_lock.locked():
+        if not in_dag_description():
             msg = f"Invoking {self} outside of a `DAG`. Executing wrapped function instead of describing dependency."
             if cfg.TAWAZI_EXECNODE_OUTSIDE_DAG_BEHAVIOR == XNOutsideDAGCall.error:
                 raise TawaziUsageError(msg)
@@ -415,8 +426,8 @@ class LazyExecNode(ExecNode, Generic[P, RVXN]):
         return new_lxn._usage_exec_node  # type: ignore[return-value]
 
     def _validate_dependencies(self) -> None:
-        # only validate dependencies if the exec_nodes_lock is locked
-        if not exec_nodes_lock.locked():
+        # only validate dependencies while describing a DAG
+        if not in_dag_description():
             return
         for dep in self.dependencies:
             # if ExecNode is not a debug node, all its dependencies must not be debug node
